@@ -112,6 +112,7 @@ class Ctx:
         self.violations.append({
             'kind': v.kind, 'case': v.case, 'detail': v.detail[:2000],
             'hash_seed': self.hash_seed, 'shrunk': shrunk, 'shard': self.shard_index,
+            'prelude': bool(getattr(self, 'prelude', False)),
         })
 
     def to_json(self):
@@ -270,3 +271,30 @@ def guarded(ctx, case, fn, secs=6):
             ctx.record_violation(v, shrunk=False)
             ctx.suppressed.add(bucket_of(v))
         return False
+
+
+def failed_calls_prelude():
+    """Process history of *failed* calls: every public callable is called once per parameter and wrong-kind value (C03's
+    complete grid; nearly all of these raise a documented exception, the rest return a pattern), and every outcome is
+    discarded. A property must hold just the same afterwards: an exception must not leave anything behind in the
+    library's module- or class-level state. Run by the worker before the shard for a third of the shards, and by
+    --replay when the replay file says the violation was found after it."""
+    from pbt.props import c03
+    n = 0
+    for case in c03.grid_cases():
+        n += 1
+        try:
+            with watchdog(6):
+                obj = dict((t[0], t[1]) for t in c03.targets())[case['target']]
+                args = [c03.decode(v) for v in case['args']]
+                kwargs = {k: c03.decode(v) for k, v in case['kwargs'].items()}
+                if case['target'].startswith('method:'):
+                    from pbt import dsl
+                    getattr(dsl.build(case['recv']), obj)(*args, **kwargs)
+                else:
+                    obj(*args, **kwargs)
+        except (KeyboardInterrupt, SystemExit):
+            raise
+        except BaseException:  # noqa: BLE001 - the outcome of a prelude call is irrelevant (C03 judges these calls)
+            pass
+    return n
